@@ -287,6 +287,23 @@ class Impls:
             pass
         return None
 
+    def resolve_dynamic(self, cp, trait, args):
+        """Callee whose self type is an unresolved type parameter: dispatch on the run-time value."""
+        from values import Adt, Ref, Sc
+        if not args or trait is None:
+            return None
+        v = args[0]
+        while isinstance(v, Ref):
+            v = v.get()
+        name = v.ty if isinstance(v, Adt) else (v.enum if isinstance(v, Sc) and v.enum else None)
+        if name is None:
+            return None
+        for imp in self.impls:
+            if cp.method in imp.methods and imp.trait is not None and imp.trait.name == trait.name \
+                    and imp.self_ty is not None and imp.self_ty.name == name:
+                return imp.methods[cp.method], {"Self": imp.self_ty}
+        return None
+
     def implements(self, trait_name, self_ty):
         if trait_name in ("CborSerializable", "TaggedCborSerializable"):
             return True
